@@ -638,3 +638,58 @@ def format_sites(root):
       ops = list(n.args[0].elts)
       out.append((n, n.func.value.value.join('{}' for _ in ops), ops))
   return out
+
+
+def card_cases(fs, M, cases=(0, 1, 2, 3)):
+  """Which lengths of the sequence named M are consistent with the condition
+  facts fs?  (cardinality domain 0 / 1 / several, several represented by 2 and 3)"""
+  def ev(e, c):
+    if isinstance(e, ast.Name) and e.id == M:
+      return c > 0
+    if isinstance(e, ast.Constant) and isinstance(e.value, bool):
+      return e.value
+    if isinstance(e, ast.UnaryOp) and isinstance(e.op, ast.Not):
+      v = ev(e.operand, c)
+      return None if v is None else (not v)
+    if isinstance(e, ast.BoolOp):
+      vs = [ev(v, c) for v in e.values]
+      if isinstance(e.op, ast.And):
+        if any(v is False for v in vs):
+          return False
+        return True if all(v is True for v in vs) else None
+      if any(v is True for v in vs):
+        return True
+      return False if all(v is False for v in vs) else None
+    if isinstance(e, ast.Compare) and len(e.ops) == 1:
+      l, r = e.left, e.comparators[0]
+
+      def num(x):
+        if isinstance(x, ast.Call) and isinstance(x.func, ast.Name) and x.func.id == 'len' and len(x.args) == 1 and u(x.args[0]) == M:
+          return c
+        if isinstance(x, ast.Constant) and isinstance(x.value, int) and not isinstance(x.value, bool):
+          return x.value
+        return None
+      a, b = num(l), num(r)
+      if a is None or b is None:
+        return None
+      op = e.ops[0]
+      table = {ast.Eq: a == b, ast.NotEq: a != b, ast.Gt: a > b, ast.GtE: a >= b, ast.Lt: a < b, ast.LtE: a <= b}
+      return table.get(type(op))
+    return None
+  out = set()
+  for c in cases:
+    ok = True
+    for f in fs:
+      if f[0] != 'c':
+        continue
+      try:
+        e = ast.parse(f[1], mode='eval').body
+      except SyntaxError:
+        continue
+      v = ev(e, c)
+      if v is not None and v != f[2]:
+        ok = False
+        break
+    if ok:
+      out.add(c)
+  return out
